@@ -306,6 +306,31 @@ pub fn decimal_string(k: i64, d: u32) -> String {
     }
 }
 
+/// Pairs of DIFFERENT keys that collide under common non-cryptographic hashes (FNV-1/FNV-1a 32, the 31-multiplier string
+/// hash, djb2, CRC-32, byte sum / xor) or that coincide after truncation (to 8, 16, 32, 64, 255 bytes; char -> u8 / u16),
+/// Unicode normalisation or at an embedded NUL.  A claim map or duplicate detector keyed by anything less than the full
+/// key confuses exactly such pairs; random keys practically never hit one.
+pub fn colliding_key_pairs() -> Vec<(String, String)> {
+    let mut v: Vec<(String, String)> = [
+        ("liquid", "costarring"), ("declinate", "macallums"), ("altarage", "zinke"), ("altarages", "zinkes"), ("session_name_plan", "workspace_hash_user"),
+        ("creamwove", "quists"),
+        ("Aa", "BB"), ("AaAa", "BBBB"), ("AaBB", "BBAa"), ("polygenelubricants", "GydZG_"), ("Ea", "FB"),
+        ("hetairas", "mentioner"), ("heliotropes", "neurospora"), ("depravement", "serafins"), ("stylist", "subgenera"), ("joyful", "synaphea"), ("redescribed", "urites"), ("dram", "vivency"),
+        ("plumless", "buckeroo"), ("codding", "gnu"), ("exhibiters", "schlager"),
+        ("listen", "silent"), ("ab", "ba"), ("ad", "bc"),
+        ("e\u{301}", "\u{e9}"), ("k\u{161}", "ka"), ("k\u{10061}", "ka"), ("k\u{10061}", "k\u{61}\u{0}"), ("key\0one", "key\0two"), ("key", "key\0"), ("K", "\u{212a}"),
+    ]
+    .iter()
+    .map(|(a, b)| (a.to_string(), b.to_string()))
+    .collect();
+    for n in [8usize, 16, 32, 64, 255, 256] {
+        let stem = "p".repeat(n);
+        v.push((format!("{}-first", stem), format!("{}-second", stem)));
+        v.push((stem.clone(), format!("{}x", stem)));
+    }
+    v
+}
+
 pub fn json_key(rng: &mut Rng) -> String {
     match rng.below(12) {
         0 => "a".into(),
